@@ -2,7 +2,11 @@ HOOK_COMMITS = ["02bc05e", "18a3dee", "c34a517", "1653682", "8fdc782", "1eb066b"
 NOT_APPLICABLE = {}
 TEXT = {
  "C17": {
-  "text": "Kernel-checked over tables regenerated from the real GetEmbeddedMethod for all 8 spork regimes: more active "
+  "text": "Kernel-checked over tables regenerated from the real GetEmbeddedMethod for all 8 spork regimes: they are exactly "
+          "what a REVIEWED table method -> introducing spork says (tables_exact: resolved iff the method's spork is at or below "
+          "the last enforced spork of the order accelerator/bridge/htlc; methods added to existing contracts included; F17's "
+          "inclusion structure explicit, f17_inclusion; receive-gated methods follow their own spork in every regime, "
+          "receive_gate_closes_f17), more active "
           "sporks never remove a method (tables_monotone), gated methods are available exactly when their own spork is "
           "enforced along the order accelerator/bridge/htlc (gate_in_order_partial; negative witness for out-of-order "
           "activation); over the spork state machine: activity is monotone in height, on exactly from acknowledged height + "
